@@ -55,6 +55,8 @@ pub struct Config {
     pub directed_limit: Option<usize>,
     /// Sanitizer shards run few programs: do not apply the coverage floor.
     pub no_floor: bool,
+    /// Interpreter stages (Miri costs about a second per system run): small random programs with little fuel.
+    pub small: bool,
 }
 
 pub struct Outcome {
@@ -271,7 +273,17 @@ pub fn run_check(cfg: &Config) -> Outcome {
     let t0 = Instant::now();
     let prop: &str = &cfg.prop;
     let thorough = cfg.tier == "thorough";
-    let profile = profile_for(prop);
+    let mut profile = profile_for(prop);
+    if cfg.small {
+        profile.ops = (2, 4);
+        profile.acts_per_op = (1, 2);
+        profile.scripts = (2, 3);
+        profile.runs_per_script = (1, 2);
+        profile.acts_per_run = (0, 3);
+        profile.init_regs = (2, 3);
+        profile.app_reactors = (0, 1);
+        profile.fuel = 12;
+    }
     let deep_profile = {
         let mut d = profile.clone();
         d.ops = (d.ops.0 + 2, d.ops.1 * 2 + 2);
